@@ -57,7 +57,24 @@ Proof.
   rewrite <- range_check_exact. destruct (py_range_idx size i); simpl; split; congruence.
 Qed.
 
-(* operators of ANY rank: an out-of-range python int at any position of the index tuple makes the size check raise *)
+(* the range check of TENSOR indices TRANSLATED from utils/getitem.py::_compute_getitem_size (its conditions
+   settings.debug, idx.numel(), the DTYPE condition and the comparison of idx.max() / idx.min() with size), under
+   settings.debug: for EVERY dtype that carries values (uint8, int8, int16, int32, int64 — everything but torch.bool), every
+   size and every index tensor (any number of values): it raises exactly when some value is >= size or < -size *)
+Theorem C19_tensor_index_range_exact : forall dt size vals, dt <> DBool ->
+  (gen_getitem_tensor_check true dt size vals = Raise <->
+   exists v, In v vals /\ (v >= Z.of_nat size \/ v < - Z.of_nat size)%Z).
+Proof.
+  intros dt size vals H. rewrite gen_getitem_tensor_check_eq, <- vals_oob_spec. apply tensor_check_exact. exact H.
+Qed.
+
+(* FINITE (the 6 index dtypes): the dtype condition of the regenerated check selects exactly the value-carrying dtypes
+   (narrowing it, e.g. to int64 only, breaks this and the theorem above) *)
+Theorem C19_tensor_index_check_dtypes : checked_idtypes = [DUInt8; DInt8; DInt16; DInt32; DInt64].
+Proof. exact checked_idtypes_all. Qed.
+
+(* operators of ANY rank: an out-of-range python int, or a value-carrying tensor index (any dtype but bool) with an
+   out-of-range value, at any position of the index tuple makes the size check raise *)
 Theorem C19_getitem_rejects_oob_int : forall sizes idx,
   int_oob sizes idx = true -> lib_compute_getitem_size true sizes idx = Raise.
 Proof. exact getitem_size_rejects_oob_int. Qed.
@@ -264,6 +281,8 @@ Example C19_nonvacuous_square :
 Proof. split; [vm_compute; reflexivity | vm_compute; discriminate]. Qed.
 
 Example C19_nonvacuous_getitem :
+  int_oob [2; 3; 3] [ISlice 2; ITensor DInt32 [2] [0; 1]%Z; ITensor DInt32 [2] [0; 3]%Z] = true /\
+  gen_getitem_tensor_check true DInt32 3 [0; 3]%Z = Raise /\ gen_getitem_tensor_check true DInt32 3 [0; -3]%Z = Ok tt /\
   int_oob [2; 3; 3] [ISlice 2; IInt 3; ISlice 3] = true /\
   int_oob [2; 3; 3] [ISlice 2; IInt (-4); ISlice 3] = true /\
   lib_compute_getitem_size true [2; 3; 3] [ISlice 2; IInt (-3); ISlice 3] = Ok [2; 3].
